@@ -280,7 +280,7 @@ def run_check(modname, argv):
             lines.append(f"VIOLATION property={prop} replay={path} no-failing-input-found")
         violations = max(1, len(agg["diffs"]))
         exit_code = 1
-    if agg["infra"] and exit_code == 0 and agg["evals"] == 0:
+    if agg["infra"] and exit_code == 0 and (agg["evals"] == 0 or len(agg["infra"]) * 5 > max(1, agg["programs"])):
         print("INFRASTRUCTURE ERROR:\n" + agg["infra"][0][-1500:])
         exit_code = 2
 
